@@ -84,7 +84,7 @@ mod helpx {
     pub fn gen_params(r: &mut Rng) -> Params {
         let n = match r.below(5) { 0 => 0usize, 1 => 1, _ => r.range(2, 40) as usize };
         let fuse: i64 = if r.coin(1, 2) { r.below(n as u64 + 2) as i64 } else { -1 };
-        let which = r.below(22);
+        let which = r.below(24);
         let zst = r.coin(1, 4);
         let chunk = if r.coin(1, 2) { 512 } else { 4096 };
         let pre = r.below(5);
@@ -97,7 +97,7 @@ mod helpx {
         let mut notes: Vec<String> = vec![];
         HDROPS.with(|d| d.borrow_mut().clear()); BORN.with(|b| b.borrow_mut().clear());
         ZBORN.with(|b| b.set(0)); ZDROP.with(|d| d.set(0));
-        let (n, fuse, which, zst, lo, lie_len) = (p.n, p.fuse, p.which.min(21), p.zst, p.lo, p.lie_len);
+        let (n, fuse, which, zst, lo, lie_len) = (p.n, p.fuse, p.which.min(23), p.zst, p.lo, p.lie_len);
         let mut bump: Bump = Bump::with_size(p.chunk.max(64));
         // something allocated before, so that positions are not at the start
         for _ in 0..p.pre { bump.alloc(7u8); }
@@ -105,7 +105,8 @@ mod helpx {
                     "alloc_iter_exact", "alloc_iter_exact(lying len)", "alloc_iter_mut", "alloc_iter_mut_rev", "alloc_iter_mut(lying hint)",
                     "BumpBox::map_in_place(to zero-sized)", "BumpBox::map_in_place(same size)", "BumpBox::map_in_place(to smaller)", "BumpVec::map_in_place(to zero-sized)",
                     "BumpVec::map(to larger)", "FixedBumpVec::map_in_place(same size)",
-                    "alloc_uninit_slice.init_fill_iter", "alloc_uninit_slice.init_fill_iter(too short)", "alloc_uninit_slice.init_move(Vec)", "alloc_uninit_slice.init_move(wrong length)"][which as usize];
+                    "alloc_uninit_slice.init_fill_iter", "alloc_uninit_slice.init_fill_iter(too short)", "alloc_uninit_slice.init_move(Vec)", "alloc_uninit_slice.init_move(wrong length)",
+                    "BumpVec::splice(lying size hint)", "BumpVec::extend(lying size hint)"][which as usize];
         let tag = format!("{what} n={n} fuse={fuse} zst={zst}");
         let before = positions(&bump);
         let is_mut = (9..=11).contains(&which);
@@ -148,6 +149,18 @@ mod helpx {
                         19 => { let b = bump.alloc_uninit_slice::<$t>(n + 2).init_fill_iter((0..n).map(|_| { tick(); $mk })); (b.iter().map($idof).collect(), vec![]) }
                         20 => { let v: Vec<$t> = (0..n).map(|_| $mk).collect(); let want: Vec<u32> = v.iter().map($idof).collect(); let b = bump.alloc_uninit_slice::<$t>(n).init_move(v); (b.iter().map($idof).collect(), want) }
                         21 => { let v: Vec<$t> = (0..n + 1).map(|_| $mk).collect(); let b = bump.alloc_uninit_slice::<$t>(n).init_move(v); (b.iter().map($idof).collect(), vec![]) }
+                        22 | 23 => {
+                            // the same on std::vec::Vec: contents must agree (values; identities differ)
+                            use bump_scope::BumpVec;
+                            let (a, b2) = (lo.min(n), lie_len.min(n).max(lo.min(n)));
+                            let k = (fuse.unsigned_abs() as usize) % 7;
+                            let hint = match p.pre { 0 => 0, 1 => k / 2, 2 => k + 3, _ => k };
+                            let mut v: BumpVec<$t, &Bump> = BumpVec::new_in(&bump);
+                            for _ in 0..n { v.push($mk); }
+                            if which == 22 { let sp = v.splice(a..b2, Lying { it: (0..k).map(|_| $mk), lo: hint, hi: None }); drop(sp); }
+                            else { v.extend(Lying { it: (0..k).map(|_| $mk), lo: hint, hi: if p.pre == 4 { Some(hint) } else { None } }); }
+                            (v.iter().map($idof).collect(), vec![n as u32, a as u32, b2 as u32, k as u32])
+                        }
                         _ => { let mut want = vec![]; let b = bump.alloc_iter_mut(Lying { it: (0..n).map(|_| { tick(); let e = $mk; want.push(($idof)(&e)); e }), lo, hi: Some(lo) }); (b.iter().map($idof).collect(), want) }
                     }
                 }));
@@ -155,6 +168,11 @@ mod helpx {
                 match &res {
                     Ok((got, want)) => {
                         if which == 19 || which == 21 { notes.push(format!("helpers: {tag} did not panic although the source has the wrong number of elements")); }
+                        if which >= 22 {
+                            let (n_, a_, b_, k_) = (want[0] as usize, want[1] as usize, want[2] as usize, want[3] as usize);
+                            let expect = if which == 22 { n_ - (b_ - a_) + k_ } else { n_ + k_ };
+                            if got.len() != expect { notes.push(format!("helpers: contents of {tag}: {} elements after the operation, expected {expect} (n {n_}, range {a_}..{b_}, {k_} new)", got.len())); }
+                        } else
                         if !want.is_empty() && !zst && got != want { notes.push(format!("helpers: contents of {tag}: got {got:?}, expected {want:?}")); }
                         if matches!(which, 0 | 1 | 2) && got.len() != n { notes.push(format!("helpers: {tag} returned {} elements", got.len())); }
                         // a lying ExactSizeIterator: a sized element type gets at most the claimed length; for a zero-sized
